@@ -102,14 +102,18 @@ def payload_rows(ctx: Ctx):
 
     def VERIF_DECL():
         from pydsol.core.pubsub import EventType
-        return EventType(f"DECL_{id(types)}", {"a": int, "b": str})
+        return EventType(f"DECL_{id(types)}", {"a": int, "b": str, "c": float})
+
+    class _S(str):
+        pass
     decl = VERIF_DECL()
     contents = {
-        "nondict_int": 5, "nondict_none": None, "nondict_list": [1, "x"],
-        "exact": {"a": 1, "b": "x"}, "exact_subclass": {"a": True, "b": "x"},
-        "missing_key": {"a": 1}, "extra_key": {"a": 1, "b": "x", "c": 2},
-        "renamed_key": {"a": 1, "c": "x"}, "value_none": {"a": 1, "b": None},
-        "wrong_type": {"a": "1", "b": "x"}, "empty_dict": {},
+        "nondict_int": 5, "nondict_none": None, "nondict_list": [1, "x", 2.5],
+        "exact": {"a": 1, "b": "x", "c": 2.5}, "exact_subclass": {"a": True, "b": "x", "c": 2.5}, "str_subclass": {"a": 1, "b": _S("x"), "c": 2.5},
+        "int_for_float": {"a": 1, "b": "x", "c": 2}, "bool_for_float": {"a": 1, "b": "x", "c": True}, "float_for_int": {"a": 1.0, "b": "x", "c": 2.5},
+        "missing_key": {"a": 1, "c": 2.5}, "extra_key": {"a": 1, "b": "x", "c": 2.5, "d": 2},
+        "renamed_key": {"a": 1, "d": "x", "c": 2.5}, "value_none": {"a": 1, "b": None, "c": 2.5},
+        "wrong_type": {"a": "1", "b": "x", "c": 2.5}, "empty_dict": {},
     }
     from pydsol.core.units import Duration
     from pydsol.core.pubsub import EventProducer, EventListener
